@@ -152,4 +152,63 @@ INFO: dict[str, dict[str, Any]] = {
         "assumptions": COMMON_ASSUMPTIONS + ["a writer that gives up after ConcurrencyError issues no further statement; its connection is closed when the writer ends (process exit), rolling back whatever it left open"],
         "expected_probes": ["concurrency_error", "lock_wait"],
     },
+    "C08": {
+        "level": "exploration",
+        "engine": "W",
+        "technique": "deterministic simulation: seeded queue-operation sequences by 1-3 interleaved actors with crash points and injected I/O errors, judged against a reference queue model built from the trigger audit",
+        "rule": ("one evaluation = 1-3 actors x 4-13 queue operations (push/push-delayed/push-in-transaction/poll/ack/reschedule/extend/"
+                 "advance-clock/failing handler via process_one/DLQ sweep/move_to_dlq/replay_dlq) interleaved at SQL statement level, "
+                 "lock_duration in {2,5,60}s, queue max_attempts in {3,10}, 30% with a crash at a seeded commit, 15% with an injected I/O "
+                 "error at a seeded commit, followed by a fault-free drain; oracles: exclusivity, conservation, fidelity, at-least-once. "
+                 "non-trivial = at least one message was pushed and delivered during the operation phase"),
+        "budget": {"quick": {"runs": 400, "seconds": 120, "chunk": 20}, "thorough": {"runs": None, "seconds": 900, "chunk": 20}},
+        "assumptions": COMMON_ASSUMPTIONS + ["the lock comparison in SQL truncates to whole seconds; the exclusivity oracle uses the same granularity"],
+        "expected_probes": ["lock_wait"],
+    },
+    "C09": {
+        "level": "exploration",
+        "technique": "deterministic simulation: redelivery of durably-processed messages after bloom reset / forced rotation / clean restart / crash restart, negative-cache option off and on; handler-invocation oracle",
+        "rule": ("one evaluation = one simulated execution with 15-50% of acknowledgements lost (each message up to twice, locks lapsed early), "
+                 "bloom capacity in {150,10,6} (small values force rotation), dedup_trust_negative_cache in {off,on}, seeded bloom resets and "
+                 "clean process restarts between steps, 30% with a crash; oracle: no handler invocation for a message id once its "
+                 "processed_messages row is durable; filter never forgets an id before reset(). non-trivial = at least one lost ack fired"),
+        "budget": {"quick": {"runs": 400, "seconds": 120, "chunk": 20}, "thorough": {"runs": None, "seconds": 900, "chunk": 20}},
+        "assumptions": COMMON_ASSUMPTIONS + ["dedup_trust_negative_cache=on is exercised in single-writer runs only (its documented precondition)"],
+    },
+    "C18": {
+        "level": "exploration",
+        "engine": "D+K+W",
+        "technique": "deterministic simulation: signal sent at every position of the run x delivery order x crash/restart/recovery (engine D/K) and 2-3 statement-level interleaved workers racing SignalStage against the suspending RunTask (engine W)",
+        "rule": ("one evaluation = one simulated execution of a workflow with a suspending stage (alone / mid-DAG / among 3 tasks) and one "
+                 "signal (persistent or transient) sent via hitl.send_signal before delivery step k (k seeded 0..44, or after the engine "
+                 "went quiet), 65% under engine D (reorder, lost ack, 35% with a crash + restart + recovery, 30% with periodic sweeps), 35% "
+                 "under engine W (sender is a third actor with a seeded delay); oracle: stays SUSPENDED until a signal is handled, exactly "
+                 "one resume and one resumed execution per persistent signal, correct payload, transient signal without effect unless "
+                 "SUSPENDED. non-trivial = the signal was actually sent"),
+        "budget": {"quick": {"runs": 400, "seconds": 150, "chunk": 20}, "thorough": {"runs": None, "seconds": 1200, "chunk": 20}},
+        "assumptions": COMMON_ASSUMPTIONS,
+    },
+    "C12": {
+        "level": "exploration",
+        "technique": "deterministic simulation: event-sourced runs under seeded delivery schedules; replay vs store, prefix vs truncated-log replay (SAVEPOINT), snapshot vs full replay",
+        "rule": ("one evaluation = one crash-free simulated execution with SqliteEventStore in the same database under a seeded delivery "
+                 "order; at quiescence the real EventReplayer is compared with the store (workflow, stages and tasks last changed by a regular "
+                 "handler), up to 5 seeded prefix lengths are checked against a replay of the truncated log and up to 3 seeded snapshot "
+                 "positions against the full replay. non-trivial = the workflow's log holds more than 3 events"),
+        "budget": {"quick": {"runs": 300, "seconds": 120, "chunk": 15}, "thorough": {"runs": None, "seconds": 900, "chunk": 15}},
+        "assumptions": COMMON_ASSUMPTIONS + ["prefixes and snapshot positions are sampled per run (5 and 3), not all of them"],
+    },
+    "C13": {
+        "level": "fault_enumeration",
+        "engine": "K+W",
+        "technique": "deterministic simulation: crash points, injected I/O errors right after the event append, and interleaved workers, with the event store in the same database; same-commit oracle over the trigger audit",
+        "rule": ("one evaluation = one simulated execution with event sourcing in the same SQLite file: 40% crash at a seeded commit "
+                 "(30% of those with a second crash), 40% an injected disk I/O error on the statement or commit that follows the n-th "
+                 "INSERT INTO events (n seeded 1..30), 20% two or three statement-level interleaved workers; oracle: completion events of "
+                 "CompleteTask/CompleteStage and the status change they describe are in the same commit, both directions; the bus "
+                 "subscriber only sees durable events; sequence numbers increase. non-trivial = the crash / injected error fired or the run "
+                 "was interleaved"),
+        "budget": {"quick": {"runs": 400, "seconds": 150, "chunk": 20}, "thorough": {"runs": None, "seconds": 1200, "chunk": 10}},
+        "assumptions": COMMON_ASSUMPTIONS + ["crash points are sampled per program here (the exhaustive per-program sweep is C01's); the unit of atomicity is the SQLite transaction"],
+    },
 }
